@@ -90,16 +90,17 @@ def step (s : St) : Act → Option St
       | d :: r => some { s with conns := upd s.conns k (some { c with readq := r, delivered := c.delivered ++ [d] }) }
       | [] => none
     | none => none
+  -- `closeCh` of the model holds the notifications in the channel *and* those whose senders are blocked on the full channel
+  -- (capacity `closeCap`): a blocked closer has already marked its association done and drained its queue, which is all the
+  -- loop can observe of it, so the two are not distinguished and the model's queue is unbounded
   | .idle k =>
     match s.conns k with
-    | some c => if !c.done ∧ s.closeCh.length < closeCap then some { s with closeCh := s.closeCh ++ [k] } else none
+    | some c => if !c.done then some { s with closeCh := s.closeCh ++ [k] } else none
     | none => none
   | .close k =>
     match s.conns k with
     | some c =>
-      if s.closeCh.length < closeCap then
-        some { s with conns := upd s.conns k (some { c with done := true, readq := [] }), closeCh := s.closeCh ++ [k] }
-      else none
+      some { s with conns := upd s.conns k (some { c with done := true, readq := [] }), closeCh := s.closeCh ++ [k] }
     | none => none
 
 def runActs : St → List Act → Option St
